@@ -6,6 +6,8 @@ CONSTANTS
   BinaryKinds = {"Add", "Subtract"}
   Levels = {"channel", "group", "root"}
   Shadow = {FALSE}
+  DaqTypes = {}
+  MaxDaqScales = 0
   LongChains = {}
   GenPrint = FALSE
 INVARIANT Elementwise
